@@ -8,7 +8,7 @@
    [prep_ok]: Section-style universally quantified function arguments. *)
 From Coq Require Import String.
 From PV Require Import Base.Prelude Conn.CmdEntry Conn.CmdTable Conn.ConnFSM Conn.Auth
-  Conn.AuthProofs Conn.SieveAuth Conn.SieveAuthProofs.
+  Conn.AuthProofs Conn.SieveAuth Conn.SieveAuthProofs Conn.AuthDb Conn.AuthDbProofs.
 Open Scope string_scope.
 
 (* IMAP, no preauth.  For every oracle, backend kind, user database,
@@ -162,3 +162,127 @@ Example C09_example_admin :
   session_user (c_phase (fst (fst (conn_step unit bk cmd_table cfg c0 tt
                                       (plain [114;0;98;0;2]%N))))) = None.
 Proof. vm_compute. split; reflexivity. Qed.
+
+(* ================================================================== *)
+(* The identity database as STATE (Conn/AuthDb.v): Identity.set / delete of
+   the dict backend (Login.users_dict) and of the maildir backend (the three
+   files passwd / shadow / group) interleaved with the commands of a
+   connection; every attempt is decided against [view_db] of the database of
+   that moment, with strict decoding of the credential octets
+   ([strict_verify], [strict_prep]: octets that are not UTF-8 never verify). *)
+
+(* Identity.set(name, pw) then Identity.get(name): the stored secret is the
+   one just set — none when the password was removed (maildir: also when the
+   field reads as disabled) — for both backends, whatever was stored before. *)
+Theorem C09_set_then_get :
+  forall (s : dbstate) (priv : bool) (n : bytes) (pw : option bytes) (roles : list bytes)
+         (s' : dbstate),
+    db_apply s (OSet priv n pw roles) = (s', ROk) ->
+    pw_of s' n = Some (effective_pw s pw).
+Proof. exact pw_after_set. Qed.
+Print Assumptions C09_set_then_get.
+
+(* an operation on one user never changes whether another exists or what its
+   stored secret is *)
+Theorem C09_set_leaves_others :
+  forall (s : dbstate) (o : dbop) (n : bytes),
+    op_name o <> n -> pw_of (fst (db_apply s o)) n = pw_of s n.
+Proof. exact pw_other. Qed.
+Print Assumptions C09_set_leaves_others.
+
+(* Over EVERY history of database operations and commands: a connection that
+   ends authenticated as u was authenticated by a command i whose credentials
+   (authc, secret, u) were valid for the database as it was when command i
+   ran (si = the database before step i). *)
+Theorem C09_history_sound :
+  forall (verify_secret : bytes -> bytes -> bool) (prep_ok : bytes -> bool) (cfg : config)
+         (p : list hstep) (c : conn) (s : dbstate) (u : bytes),
+    session_user (c_phase c) = None ->
+    session_user (c_phase (fst (hist_final verify_secret prep_ok cmd_table cfg (c, s) p))) = Some u ->
+    exists i k authc secret ci si,
+      nth_error p i = Some (HCmd k) /\
+      nth_error (hist_before verify_secret prep_ok cmd_table cfg (c, s) p) i = Some (ci, si) /\
+      creds_of k = Some (authc, secret, u) /\
+      valid_at verify_secret prep_ok si authc secret u.
+Proof. exact hist_sound. Qed.
+Print Assumptions C09_history_sound.
+
+(* A removed password never authenticates: once Identity.set(n, password=None)
+   succeeded, n has no stored secret ... *)
+Theorem C09_password_removed :
+  forall (s : dbstate) (priv : bool) (n : bytes) (roles : list bytes) (s' : dbstate),
+    db_apply s (OSet priv n None roles) = (s', ROk) -> no_pw s' n.
+Proof. exact removed_no_pw. Qed.
+Print Assumptions C09_password_removed.
+
+(* ... and through any later history in which nobody sets a password for n,
+   whoever the connection becomes did not get there with n's credentials. *)
+Theorem C09_removed_password_never_authenticates :
+  forall (verify_secret : bytes -> bytes -> bool) (prep_ok : bytes -> bool) (cfg : config)
+         (p : list hstep) (c : conn) (s : dbstate) (n u : bytes),
+    no_pw s n ->
+    (forall o, In (HOp o) p -> gives_pw n o = false) ->
+    session_user (c_phase c) = None ->
+    session_user (c_phase (fst (hist_final verify_secret prep_ok cmd_table cfg (c, s) p))) = Some u ->
+    exists i k authc secret,
+      nth_error p i = Some (HCmd k) /\ creds_of k = Some (authc, secret, u) /\ authc <> n.
+Proof. exact removed_never_authenticates. Qed.
+Print Assumptions C09_removed_password_never_authenticates.
+
+(* A deleted user: Identity.delete(n) (whatever it answers) leaves no user n;
+   until somebody creates n again nobody authenticates with n's credentials
+   and nobody acts as n. *)
+Theorem C09_deleted_user_never_authenticates :
+  forall (verify_secret : bytes -> bytes -> bool) (prep_ok : bytes -> bool) (cfg : config)
+         (p : list hstep) (c : conn) (s0 s : dbstate) (r : opres) (n u : bytes),
+    db_apply s0 (ODelete n) = (s, r) ->
+    (forall o, In (HOp o) p -> creates n o = false) ->
+    session_user (c_phase c) = None ->
+    session_user (c_phase (fst (hist_final verify_secret prep_ok cmd_table cfg (c, s) p))) = Some u ->
+    u <> n /\
+    exists i k authc secret,
+      nth_error p i = Some (HCmd k) /\ creds_of k = Some (authc, secret, u) /\ authc <> n.
+Proof. exact deleted_then_never. Qed.
+Print Assumptions C09_deleted_user_never_authenticates.
+
+(* LOGIN whose user id or password octets are not valid UTF-8 never
+   authenticates (no lossy decoding), whatever the database holds; same for
+   ManageSieve AUTHENTICATE and for a user without a stored secret. *)
+Theorem C09_login_not_utf8 :
+  forall (verify_secret : bytes -> bytes -> bool) (prep_ok : bytes -> bool) (cfg : config)
+         (s : dbstate) (c : conn) (u p : bytes),
+    session_user (c_phase c) = None ->
+    utf8_valid u = false \/ utf8_valid p = false ->
+    session_user (c_phase (fst (fst (conn_step unit (bk_at verify_secret prep_ok s) cmd_table cfg c tt
+                                               (CCmd "LOGIN" (ALogin u p)))))) = None.
+Proof. exact login_not_utf8. Qed.
+Print Assumptions C09_login_not_utf8.
+
+Theorem C09_sieve_no_secret_or_not_utf8 :
+  forall (verify_secret : bytes -> bytes -> bool) (prep_ok : bytes -> bool)
+         (s : dbstate) (c : sconn) (k : scmd) (n secret : bytes),
+    sv_owner c = None -> sieve_creds_of k = Some (n, secret) ->
+    no_pw s n \/ utf8_valid n = false \/ utf8_valid secret = false ->
+    sv_owner (fst (fst (sieve_step unit (bk_at verify_secret prep_ok s) c tt k))) = None.
+Proof. exact sieve_no_pw_step. Qed.
+Print Assumptions C09_sieve_no_secret_or_not_utf8.
+
+(* Non-vacuity (maildir, the three files): bob logs in with his password;
+   after Identity.set(bob, password=None) the shadow field reads '*' and the
+   same LOGIN is refused; "b\xffob"-style octets never log in. *)
+Example C09_example_removed :
+  let b := [98]%N in let h := [104]%N in
+  let f := mk_md [(b, false)] [(b, h)] [] in
+  let verify := fun h s => bytes_eqb h s in
+  let cfg := mk_config false true 5 true true None in
+  let login s u p :=
+    let bk := bk_at verify (fun _ => true) s in
+    let c0 := fst (fst (conn_init unit bk cfg tt)) in
+    session_user (c_phase (fst (fst (conn_step unit bk cmd_table cfg c0 tt
+                                        (CCmd "LOGIN" (ALogin u p)))))) in
+  let s0 := MdDb f in
+  let s1 := fst (db_apply s0 (OSet true b None [])) in
+  login s0 b h = Some b /\ login s1 b h = None /\
+  login s0 b [104; 255]%N = None /\ login s0 [98; 255]%N h = None /\
+  pw_of s1 b = Some None.
+Proof. vm_compute. repeat split; reflexivity. Qed.
